@@ -16,6 +16,10 @@ ReqStep(r) ==
     [] r = "gaih4" -> [op |-> "gai", t |-> 1, name |-> "h1.test", family |-> 4]
     [] r = "gaih6" -> [op |-> "gai", t |-> 1, name |-> "h1.test", family |-> 6]
     [] r = "gailocal" -> [op |-> "gai", t |-> 1, name |-> "localhost", family |-> 0]
+    [] r = "gail4only0" -> [op |-> "gai", t |-> 1, name |-> "v4only.localhost", family |-> 0]    \* hosts database lists one family only
+    [] r = "gail4only6" -> [op |-> "gai", t |-> 1, name |-> "v4only.localhost", family |-> 6]
+    [] r = "gail6only0" -> [op |-> "gai", t |-> 1, name |-> "v6only.localhost", family |-> 0]
+    [] r = "gailother0" -> [op |-> "gai", t |-> 1, name |-> "other.localhost", family |-> 0]     \* not listed
     [] r = "gailit" -> [op |-> "gai", t |-> 1, name |-> "10.1.2.9", family |-> 0, service |-> "25"]
     [] r = "ghbn4" -> [op |-> "ghbn", t |-> 1, name |-> "n1.test", family |-> 4]
     [] r = "ghbn6" -> [op |-> "ghbn", t |-> 1, name |-> "n1.test", family |-> 6]
